@@ -14,16 +14,15 @@ func TestC05Count(t *testing.T) {
 		t.Skip("set C05_COUNT")
 	}
 	for k := 1; k <= d; k++ {
-		var n int64
-		states := map[uint64]struct{}{}
-		enumerate(newModel(), nil, k, func(h []sym) {
-			n++
-			m := newModel()
-			for _, s := range h {
-				m.apply(s)
+		var base, ext int64
+		enumerate(newModel(), nil, k, fullMask, func(h []sym) {
+			if firstOf(h, extSyms) >= 0 {
+				ext++
+			} else {
+				base++
 			}
-			states[m.hash()] = struct{}{}
 		})
-		fmt.Fprintf(os.Stdout, "depth %d: histories %d, distinct model states at that depth %d, units(len %d) %d\n", k, n, len(states), unitLen(k), len(genUnits(unitLen(k))))
+		fmt.Fprintf(os.Stdout, "depth %d: base-alphabet histories %d, extended-alphabet histories (with Ar/Br/Az) %d, units(len %d): base %d, extended %d\n",
+			k, base, ext, unitLen(k), len(genUnits(unitLen(k), baseMask)), len(genUnits(unitLen(k), fullMask)))
 	}
 }
